@@ -25,6 +25,12 @@ func init() {
 		ruleZ10(c, "C12.Z10")
 		ruleZ11(c, "C12.Z11")
 		ruleZ12(c, "C12.Z12")
+		// READ fills holes (it links a block): its transaction must end like any other, or the pointer reaches the
+		// disk with a later operation while the bitmap bit does not - after a restart the block is handed to another file
+		ruleZ14(c, "C12.Z14")
+		// a READ that takes block 0 for the block of a hole returns the log header as file data
+		ruleNullSource(c, "C12.Z15")
+		ruleL2f(c, "C12.Z13", func(e string) bool { return strings.HasSuffix(e, "NFSPROC3_READ") }, 2)
 	}
 }
 
@@ -548,6 +554,40 @@ func ruleZ3(c *Ctx, id string) {
 							dep = P.Pos(br.Block.Instrs[len(br.Block.Instrs)-1].Pos())
 						}
 					}
+					// the loop goes on while the index is below the bound: the store lies on that side of the test
+					op := br.Cond.Op
+					if idxCone[stripConv(br.Cond.Y)] && !idxCone[stripConv(br.Cond.X)] {
+						op = flipOp(op)
+					}
+					side := br.True
+					if op == token.GEQ || op == token.GTR {
+						side = br.False
+					}
+					polOK := (op == token.LSS || op == token.LEQ || op == token.GEQ || op == token.GTR) && (side == st.Block() || side.Dominates(st.Block()))
+					R.Check(polOK, id, "inode.Resize|clearing loop runs while index < bound", P.Pos(br.Block.Instrs[len(br.Block.Instrs)-1].Pos()), "the zero store lies on the side of the loop test where the index is below the bound", "index "+op.String()+" bound", "the loop test is the wrong way round: the body never runs (or runs past the block), the bytes behind the new end of file stay and reappear when the file grows")
+				}
+				if nb > 0 {
+					// the index advances: it is a loop variable incremented by a positive constant
+					adv := false
+					if ph, isP := stripConv(ia.Index).(*ssa.Phi); isP {
+						for _, e := range ph.Edges {
+							if bo, isB := stripConv(e).(*ssa.BinOp); isB && bo.Op == token.ADD {
+								if k, isk := constInt(bo.Y); isk && k > 0 && stripConv(bo.X) == ssa.Value(ph) {
+									adv = true
+								}
+								if k, isk := constInt(bo.X); isk && k > 0 && stripConv(bo.Y) == ssa.Value(ph) {
+									adv = true
+								}
+							}
+						}
+					}
+					R.Check(adv, id, "inode.Resize|clearing loop advances", P.Pos(st.Pos()), "the index of the zero store is a loop variable that grows by a positive constant per round", "phi + constant", "the index never changes: the loop clears one byte for ever (the request never ends, holding the inode lock)")
+					// and the cleared bytes are marked dirty (or written) on every path that follows
+					isDirty := func(x ssa.Instruction) bool {
+						g := staticCallee(x)
+						return g != nil && (g.Name() == "SetDirty" || g == V.OverWrite)
+					}
+					R.Check(MustAfter(fn, isDirty, nil)(st), id, "inode.Resize|cleared bytes reach the journal", P.Pos(st.Pos()), "every path from the zero store passes SetDirty (or an OverWrite) of the buffer", "must-follow", "the tail is cleared in a buffer that is never marked dirty: the transaction does not log it, the old bytes stay on disk and reappear when the file grows")
 				}
 				if nb > 0 {
 					R.Check(dep == "", id, "inode.Resize|tail cleared to the end of the block", P.Pos(st.Pos()), "the clearing loop's bound is the block size (not a value computed from the file's size)", "bound independent of Inode.Size", "the clearing stops at a position computed from the old file size: after a shrink across a block boundary the kept block still holds old bytes behind the new end, and growing the file shows them")
@@ -1029,4 +1069,87 @@ func ruleZ12(c *Ctx, id string) {
 	if n == 0 {
 		R.Fail(id, "inode.Read|result", P.Pos(f.Pos()), "Inode.Read returns a slice", "no slice result found")
 	}
+}
+
+// ruleZ14: ShrinkSize is what tells Shrink which blocks the inode may still
+// hold.  Nothing but Resize raises it (C05.F16: Size and ShrinkSize have fixed
+// writers; Write grows Size only), so when Resize lowers the size, ShrinkSize
+// must be raised to cover the size the file had: one of the values Resize
+// stores into ShrinkSize derives from Inode.Size as it was before Resize
+// stored the new size.  Otherwise the blocks between the new and the old size
+// are never looked at: they stay linked, and when the file grows again their
+// old bytes are read where nothing was ever written.
+func ruleZ14(c *Ctx, id string) {
+	V, P, R := c.V, c.P, c.R
+	R.Rule(id, "a truncation gives up every block of the old size: a value Resize stores into Inode.ShrinkSize derives from Inode.Size read before Resize stores the new size", 1)
+	if V.Resize == nil {
+		return
+	}
+	scopes := scopesOf(V.Resize)
+	// the stores of the new size
+	type at struct {
+		fn *ssa.Function
+		in ssa.Instruction
+	}
+	var sizeStores []at
+	for _, sc := range scopes {
+		for _, w := range FieldWrites(sc.Fn) {
+			if w.Type == V.Inode && w.Field == "Size" {
+				sizeStores = append(sizeStores, at{sc.Fn, w.Instr})
+			}
+		}
+	}
+	n, covered := 0, false
+	var pos ssa.Instruction
+	for _, sc := range scopes {
+		for _, w := range FieldWrites(sc.Fn) {
+			if w.Type != V.Inode || w.Field != "ShrinkSize" {
+				continue
+			}
+			n++
+			pos = w.Instr
+			seen := map[ssa.Value]bool{}
+			var walk func(v ssa.Value, d int)
+			walk = func(v ssa.Value, d int) {
+				v = sc.S.resolve(stripConv(v))
+				if v == nil || seen[v] || d > 12 {
+					return
+				}
+				seen[v] = true
+				switch x := v.(type) {
+				case *ssa.Phi:
+					for _, e := range x.Edges {
+						walk(e, d+1)
+					}
+				case *ssa.BinOp:
+					walk(x.X, d+1)
+					walk(x.Y, d+1)
+				case *ssa.Call:
+					for _, a := range x.Call.Args {
+						walk(a, d+1)
+					}
+				case *ssa.UnOp:
+					if nm, fl, _, isElem := loadedField(x); !isElem && nm == V.Inode && fl == "Size" {
+						// the old size: no store of the new size can come before this load
+						old := true
+						for _, st := range sizeStores {
+							if st.fn == x.Parent() && reachableFrom(st.in, x) {
+								old = false
+							}
+						}
+						if old {
+							covered = true
+						}
+					}
+				}
+			}
+			walk(w.Val, 0)
+		}
+	}
+	if n == 0 {
+		R.Fail(id, "inode.Resize|ShrinkSize", P.Pos(V.Resize.Pos()), "Resize maintains ShrinkSize", "no store to Inode.ShrinkSize found in Resize")
+		return
+	}
+	R.Analysed[FuncName(V.Resize)] = true
+	R.Check(covered, id, "inode.Resize|ShrinkSize covers the old size", P.Pos(pos.Pos()), "a value stored into ShrinkSize derives from the size the file had when Resize was called", fmt.Sprintf("%d store(s) to ShrinkSize, %d store(s) to Size", n, len(sizeStores)), "Resize derives ShrinkSize from the new size only: after a truncation the blocks between the new and the old size are not freed (nothing else raises ShrinkSize reliably); they stay linked and show their old bytes when the file grows again")
 }
